@@ -99,7 +99,7 @@ mod verif_c10 {
         kani::cover!(ok || !ok);
     }
 
-    // @harness id=C10 tier=thorough timeout=3400 mem=20
+    // @harness id=C10 tier=deep timeout=3400 mem=20
     // @bounds prefix 'x' + one symbolic ASCII character (all 128) + suffix '': no panic (Ok or Err)
     #[kani::proof]
     #[kani::unwind(12)]
@@ -109,7 +109,7 @@ mod verif_c10 {
         kani::cover!(ok || !ok);
     }
 
-    // @harness id=C10 tier=thorough timeout=3400 mem=20
+    // @harness id=C10 tier=deep timeout=3400 mem=20
     // @bounds prefix '{' + one symbolic ASCII character (all 128) + suffix '}': no panic (Ok or Err)
     #[kani::proof]
     #[kani::unwind(12)]
@@ -119,7 +119,7 @@ mod verif_c10 {
         kani::cover!(ok || !ok);
     }
 
-    // @harness id=C10 tier=thorough timeout=3400 mem=20
+    // @harness id=C10 tier=deep timeout=3400 mem=20
     // @bounds prefix 'x{' + one symbolic ASCII character (all 128) + suffix '}': no panic (Ok or Err)
     #[kani::proof]
     #[kani::unwind(12)]
@@ -139,7 +139,7 @@ mod verif_c10 {
         kani::cover!(ok || !ok);
     }
 
-    // @harness id=C10 tier=thorough timeout=3400 mem=20
+    // @harness id=C10 tier=deep timeout=3400 mem=20
     // @bounds prefix 'x}' + one symbolic ASCII character (all 128) + suffix 'y': no panic (Ok or Err)
     #[kani::proof]
     #[kani::unwind(12)]
@@ -149,7 +149,7 @@ mod verif_c10 {
         kani::cover!(ok || !ok);
     }
 
-    // @harness id=C10 tier=thorough timeout=3400 mem=20
+    // @harness id=C10 tier=deep timeout=3400 mem=20
     // @bounds prefix '{a' + one symbolic ASCII character (all 128) + suffix '}': no panic (Ok or Err)
     #[kani::proof]
     #[kani::unwind(12)]
@@ -159,7 +159,7 @@ mod verif_c10 {
         kani::cover!(ok || !ok);
     }
 
-    // @harness id=C10 tier=thorough timeout=3400 mem=20
+    // @harness id=C10 tier=deep timeout=3400 mem=20
     // @bounds prefix 'x{a' + one symbolic ASCII character (all 128) + suffix '}y': no panic (Ok or Err)
     #[kani::proof]
     #[kani::unwind(12)]
@@ -169,7 +169,7 @@ mod verif_c10 {
         kani::cover!(ok || !ok);
     }
 
-    // @harness id=C10 tier=thorough timeout=3400 mem=20
+    // @harness id=C10 tier=deep timeout=3400 mem=20
     // @bounds prefix '{a:' + one symbolic ASCII character (all 128) + suffix '}': no panic (Ok or Err)
     #[kani::proof]
     #[kani::unwind(12)]
@@ -179,7 +179,7 @@ mod verif_c10 {
         kani::cover!(ok || !ok);
     }
 
-    // @harness id=C10 tier=thorough timeout=3400 mem=20
+    // @harness id=C10 tier=deep timeout=3400 mem=20
     // @bounds prefix '{a:9' + one symbolic ASCII character (all 128) + suffix '}': no panic (Ok or Err)
     #[kani::proof]
     #[kani::unwind(12)]
@@ -189,7 +189,7 @@ mod verif_c10 {
         kani::cover!(ok || !ok);
     }
 
-    // @harness id=C10 tier=thorough timeout=3400 mem=20
+    // @harness id=C10 tier=deep timeout=3400 mem=20
     // @bounds prefix '{a:<' + one symbolic ASCII character (all 128) + suffix '}': no panic (Ok or Err)
     #[kani::proof]
     #[kani::unwind(12)]
@@ -199,7 +199,7 @@ mod verif_c10 {
         kani::cover!(ok || !ok);
     }
 
-    // @harness id=C10 tier=thorough timeout=3400 mem=20
+    // @harness id=C10 tier=deep timeout=3400 mem=20
     // @bounds prefix '{a:99999' + one symbolic ASCII character (all 128) + suffix '}': no panic (Ok or Err)
     #[kani::proof]
     #[kani::unwind(12)]
@@ -209,7 +209,7 @@ mod verif_c10 {
         kani::cover!(ok || !ok);
     }
 
-    // @harness id=C10 tier=thorough timeout=3400 mem=20
+    // @harness id=C10 tier=deep timeout=3400 mem=20
     // @bounds prefix '{a!' + one symbolic ASCII character (all 128) + suffix '}': no panic (Ok or Err)
     #[kani::proof]
     #[kani::unwind(12)]
@@ -219,7 +219,7 @@ mod verif_c10 {
         kani::cover!(ok || !ok);
     }
 
-    // @harness id=C10 tier=thorough timeout=3400 mem=20
+    // @harness id=C10 tier=deep timeout=3400 mem=20
     // @bounds prefix '{a:.' + one symbolic ASCII character (all 128) + suffix '}': no panic (Ok or Err)
     #[kani::proof]
     #[kani::unwind(12)]
@@ -229,7 +229,7 @@ mod verif_c10 {
         kani::cover!(ok || !ok);
     }
 
-    // @harness id=C10 tier=thorough timeout=3400 mem=20
+    // @harness id=C10 tier=deep timeout=3400 mem=20
     // @bounds prefix '{a:.r' + one symbolic ASCII character (all 128) + suffix '}': no panic (Ok or Err)
     #[kani::proof]
     #[kani::unwind(12)]
@@ -239,7 +239,7 @@ mod verif_c10 {
         kani::cover!(ok || !ok);
     }
 
-    // @harness id=C10 tier=thorough timeout=3400 mem=20
+    // @harness id=C10 tier=deep timeout=3400 mem=20
     // @bounds prefix '{a:.r/' + one symbolic ASCII character (all 128) + suffix '}': no panic (Ok or Err)
     #[kani::proof]
     #[kani::unwind(12)]
@@ -249,7 +249,7 @@ mod verif_c10 {
         kani::cover!(ok || !ok);
     }
 
-    // @harness id=C10 tier=thorough timeout=3400 mem=20
+    // @harness id=C10 tier=deep timeout=3400 mem=20
     // @bounds prefix '{a:.r/b' + one symbolic ASCII character (all 128) + suffix '}': no panic (Ok or Err)
     #[kani::proof]
     #[kani::unwind(12)]
@@ -259,7 +259,7 @@ mod verif_c10 {
         kani::cover!(ok || !ok);
     }
 
-    // @harness id=C10 tier=thorough timeout=3400 mem=20
+    // @harness id=C10 tier=deep timeout=3400 mem=20
     // @bounds prefix '{a' + one symbolic ASCII character (all 128) + suffix '': no panic (Ok or Err)
     #[kani::proof]
     #[kani::unwind(12)]
@@ -269,7 +269,7 @@ mod verif_c10 {
         kani::cover!(ok || !ok);
     }
 
-    // @harness id=C10 tier=thorough timeout=3400 mem=20
+    // @harness id=C10 tier=deep timeout=3400 mem=20
     // @bounds prefix '{a:9' + one symbolic ASCII character (all 128) + suffix '': no panic (Ok or Err)
     #[kani::proof]
     #[kani::unwind(12)]
@@ -279,7 +279,7 @@ mod verif_c10 {
         kani::cover!(ok || !ok);
     }
 
-    // @harness id=C10 tier=thorough timeout=3400 mem=20
+    // @harness id=C10 tier=deep timeout=3400 mem=20
     // @bounds prefix '{a:4294967296' + one symbolic ASCII character (all 128) + suffix '}': no panic (Ok or Err)
     #[kani::proof]
     #[kani::unwind(18)]
@@ -289,7 +289,7 @@ mod verif_c10 {
         kani::cover!(ok || !ok);
     }
 
-    // @harness id=C10 tier=thorough timeout=3400 mem=20
+    // @harness id=C10 tier=deep timeout=3400 mem=20
     // @bounds prefix '{a:99999999999999999999' + one symbolic ASCII character (all 128) + suffix '}': no panic (Ok or Err)
     #[kani::proof]
     #[kani::unwind(28)]
@@ -300,7 +300,7 @@ mod verif_c10 {
     }
 
     // ---- widths up to and beyond u16::MAX: "{a:" + 1..=6 symbolic digits + "}" must yield Ok (value fits) or Err, never panic
-    // @harness id=C10 tier=thorough timeout=3400 mem=20
+    // @harness id=C10 tier=deep timeout=3400 mem=20
     // @bounds "{a:" + d digits (d in 1..=6, each 0..=9 symbolic) + "}": no panic; Ok iff the value fits into u16, and then the parsed width equals the value
     #[kani::proof]
     #[kani::unwind(12)]
@@ -395,7 +395,7 @@ mod verif_c10 {
         pos == want.len()
     }
 
-    // @harness id=C10 tier=thorough timeout=3400 mem=20
+    // @harness id=C10 tier=deep timeout=3400 mem=20
     // @bounds lit1 + "{" + ws + lit2 with lit1, lit2 in 0..=2 symbolic letters from {x, y, '"', ','} and ws in {space, tab, newline, carriage return}: the brace stands for itself and the literal text is preserved in order
     #[kani::proof]
     #[kani::unwind(12)]
@@ -440,7 +440,7 @@ mod verif_c10 {
         std::mem::forget(t);
     }
 
-    // @harness id=C10 tier=thorough timeout=3400 mem=20
+    // @harness id=C10 tier=deep timeout=3400 mem=20
     // @bounds lit1 + "{k" + [":" + align? + width digit? + "!"?] + "}" + lit2, lit1/lit2 in 0..=2 letters from {x, "{{", "}}", newline}: parts = literal(lit1 unescaped), placeholder(k, align, width, truncate), literal(lit2 unescaped) in this order
     #[kani::proof]
     #[kani::unwind(12)]
@@ -686,7 +686,7 @@ mod verif_c10 {
         std::mem::forget(t);
     }
 
-    // @harness id=C10 tier=thorough timeout=3000 mem=28
+    // @harness id=C10 tier=deep timeout=3000 mem=28
     // @bounds "a{k:>7!}<NL>b": parts = Literal a, Placeholder(k, Right, width 7, truncate), NewLine, Literal b, in this order
     #[kani::proof]
     #[kani::unwind(12)]
@@ -695,7 +695,7 @@ mod verif_c10 {
         check_placeholder(2, 7);
     }
 
-    // @harness id=C10 tier=thorough timeout=3000 mem=28
+    // @harness id=C10 tier=deep timeout=3000 mem=28
     // @bounds "a{k:^0!}<NL>b": parts = Literal a, Placeholder(k, Center, width 0, truncate), NewLine, Literal b
     #[kani::proof]
     #[kani::unwind(12)]
